@@ -273,6 +273,75 @@ fn answer(a: &[&str]) -> String {
             let _ = server.join();
             out
         }
+        // negotiate_rq <protocol version> <app context ok 0|1> <user items: number=Max Length, V, R,|-> <context ids,|-> <access granted 0|1>
+        //   -> "MATCH <what>" | "MISMATCH <what>": a real acceptor (1 configured abstract syntax 1.2.3, any transfer syntax) answers the request over loopback
+        //      and the answer is compared with the rules of C28 (rejection reason; one result per context, same ids in order; requestor max PDU length)
+        "negotiate_rq" => {
+            use dicom_ul::association::server::ServerAssociationOptions;
+            use dicom_ul::pdu::{read_pdu, write_pdu, AssociationRJServiceUserReason, AssociationRJSource, AssociationRQ, Pdu, PresentationContextProposed, RequestorRoles, UserVariableItem};
+            use std::io::Read;
+            let pv: u16 = a[1].parse().unwrap();
+            let app_ok = a[2] == "1";
+            let uvs: Vec<String> = if a[3] == "-" { vec![] } else { a[3].split(',').map(|x| x.to_string()).collect() };
+            let ids: Vec<u8> = if a[4] == "-" { vec![] } else { a[4].split(',').map(|x| x.parse().unwrap()).collect() };
+            let granted = a[5] == "1";
+            let listener = std::net::TcpListener::bind("127.0.0.1:0").unwrap();
+            let addr = listener.local_addr().unwrap();
+            let server = std::thread::spawn(move || -> String {
+                let (sock, _) = match listener.accept() { Ok(x) => x, Err(e) => return format!("NOACCEPT {}", e) };
+                let base = ServerAssociationOptions::new().with_abstract_syntax("1.2.3").ae_title("THIS-SCP");
+                let r = if granted { base.accept_any().establish(sock).map(|a| a.requestor_max_pdu_length()) } else { base.accept_called_ae_title().establish(sock).map(|a| a.requestor_max_pdu_length()) };
+                match r { Ok(m) => format!("MAX {}", m), Err(e) => format!("SERVERERR {}", e).replace(' ', "_") }
+            });
+            let mut sock = std::net::TcpStream::connect(addr).unwrap();
+            sock.set_read_timeout(Some(std::time::Duration::from_secs(5))).ok();
+            let mut user_variables = Vec::new();
+            let mut last_max: Option<u32> = None;
+            for u in &uvs {
+                match u.as_str() {
+                    "V" => user_variables.push(UserVariableItem::ImplementationVersionName("V".into())),
+                    "R" => user_variables.push(UserVariableItem::ScuScpRoleSelectionSubItem("1.2.3".into(), RequestorRoles { scu: true, scp: false })),
+                    n => { let v: u32 = n.parse().unwrap(); last_max = Some(v); user_variables.push(UserVariableItem::MaxLength(v)) }
+                }
+            }
+            let rq = Pdu::AssociationRQ(AssociationRQ {
+                protocol_version: pv, calling_ae_title: "SCU".into(), called_ae_title: if granted { "THIS-SCP".into() } else { "SOMEONE-ELSE".into() },
+                application_context_name: if app_ok { "1.2.840.10008.3.1.1.1".into() } else { "1.2.3.9".into() },
+                presentation_contexts: ids.iter().enumerate().map(|(k, id)| PresentationContextProposed { id: *id, abstract_syntax: if k % 2 == 0 { "1.2.3".into() } else { "1.2.4".into() },
+                    transfer_syntaxes: vec![if k == 0 { "1.2.840.10008.1.2.1".to_string() } else { "1.2.9.9".to_string() }] }).collect(),
+                user_variables,
+            });
+            if write_pdu(&mut sock, &rq).is_err() { return "WRITEERR".into(); }
+            let mut buf: Vec<u8> = Vec::new();
+            let mut chunk = [0u8; 4096];
+            let answer = loop {
+                let mut cur = &buf[..];
+                match read_pdu(&mut cur, 16_384, false) {
+                    Ok(Some(p)) => break Some(p),
+                    Ok(None) => {}
+                    Err(_) => break None,
+                }
+                match sock.read(&mut chunk) { Ok(0) => break None, Ok(k) => buf.extend_from_slice(&chunk[..k]), Err(_) => break None }
+            };
+            drop(sock);
+            let sv = server.join().unwrap_or_default();
+            let want_rj = if pv != 1 { Some(AssociationRJServiceUserReason::NoReasonGiven) } else if !app_ok { Some(AssociationRJServiceUserReason::ApplicationContextNameNotSupported) }
+                          else if !granted { Some(AssociationRJServiceUserReason::CalledAETitleNotRecognized) } else { None };
+            match (answer, want_rj) {
+                (Some(Pdu::AssociationRJ(rj)), Some(w)) => if rj.source == AssociationRJSource::ServiceUser(w.clone()) { format!("MATCH RJ {:?}", w).replace(' ', "_").replacen('_', " ", 1) } else { format!("MISMATCH RJ_{:?}_expected_{:?}", rj.source, w).replace(' ', "_").replacen('_', " ", 1) },
+                (Some(Pdu::AssociationRJ(rj)), None) => format!("MISMATCH unexpected_RJ_{:?}", rj.source).replace(' ', "_").replacen('_', " ", 1),
+                (Some(Pdu::AssociationAC(_)), Some(w)) => format!("MISMATCH accepted_expected_RJ_{:?}", w).replace(' ', "_").replacen('_', " ", 1),
+                (Some(Pdu::AssociationAC(ac)), None) => {
+                    let got: Vec<u8> = ac.presentation_contexts.iter().map(|p| p.id).collect();
+                    let maximum = (u32::MAX & !1) - 6;
+                    let want_max = match last_max { None => 32_768 - 6, Some(0) => maximum, Some(v) => v.min(maximum) };
+                    if got != ids { format!("MISMATCH ids_{:?}_for_{:?}", got, ids).replace(' ', "") .replacen("MISMATCH", "MISMATCH ", 1) }
+                    else if sv != format!("MAX {}", want_max) { format!("MISMATCH requestor_max_{}_expected_{}", sv.replace(' ', "_"), want_max) }
+                    else { format!("MATCH AC ids={:?} {}", got, sv).replace(' ', "_").replacen('_', " ", 1) }
+                }
+                (other, _) => format!("OTHER {} / {}", other.map(|p| p.short_description().to_string()).unwrap_or_else(|| "no_answer".into()), sv).replace(' ', "_").replacen('_', " ", 1),
+            }
+        }
         // pdu_big <L>: write an A-ASSOCIATE-RQ holding one unknown user sub-item with L content bytes, then read the bytes back
         "pdu_big" => {
             use dicom_ul::pdu::{read_pdu, write_pdu, AssociationRQ, Pdu, PresentationContextProposed, UserVariableItem};
